@@ -10,6 +10,7 @@ CONSTANTS
   Universes <- AllUniverses
   SLen = 1
   Garbage <- Gg
+  WithInv = TRUE
   BugDeliverTwice = FALSE
   BugRelaySenderOnly = FALSE
   BugTruncate = FALSE
